@@ -58,6 +58,15 @@ def one(rng, acc, d, clsname, record=True):
                 return "refused-call-accepted", f"{call}({kw}) on a committed record without open patch returned"
             except Exception:
                 acc.count("refused_calls_before_merge") if record else None
+    if not mixed and rng.random() < 0.3:
+        # a patch is started and discarded (also one with content) before merging through the same object
+        files = list(rec.ih5_files)
+        rec.close()
+        rec = cls(files, "r+")
+        if rng.random() < 0.5:
+            rec["discarded-content"] = 1
+        rec.discard_patch()
+        acc.count("merges_after_discarded_patch") if record else None
     src_dump = E.full_dump(rec)
     meta_before = [meta_key(u) for u in rec.ih5_meta]
     files_before = list(rec.ih5_files)
